@@ -80,6 +80,11 @@ def gen_scenario(rng):
         if rng.random() < 0.3 and not c["pingpong"]:
             c["pieces"] = sorted(rng.sample(range(1, 120 * len(reqs)), 2))
         conns.append(c)
+    if len(conns) == 2 and rng.random() < 0.3:
+        # a long poll: the first request of connection 0 completes only once a request of
+        # connection 1 has been executed -- a second worker must be woken for it
+        adj["threads"] = rng.choice([2, 3])
+        conns[0]["requests"][0]["gate"] = "peer"
     if any(r["k"] == "stream" for c in conns for r in c["requests"]):
         # an application that waits for its own output to be delivered only makes
         # sense without send_bytes batching (output below send_bytes is held back
@@ -103,6 +108,10 @@ def directed(poll):
     out.append({"adj": {"threads": 2, "asyncore_use_poll": poll, "send_bytes": 64, "channel_request_lookahead": 1}, "sndbuf": 2048,
                 "conns": [{"requests": [{"n": 2049, "k": "fw"}, {"n": 5, "k": "raise0"}], "sndbuf": 2048, "pingpong": True},
                           {"requests": [{"n": 100, "k": "nocl", "w": 64}], "sndbuf": 2048}]})
+    # two connections, two workers, a long poll on the first released by the second
+    out.append({"adj": {"threads": 2, "asyncore_use_poll": poll, "send_bytes": 1}, "sndbuf": 2048,
+                "conns": [{"requests": [{"n": 100, "k": "cl", "gate": "peer"}, {"n": 10, "k": "cl"}], "sndbuf": 2048},
+                          {"requests": [{"n": 50, "k": "cl"}, {"n": 600, "k": "write", "w": 100}], "sndbuf": 2048}]})
     return out
 
 
@@ -116,7 +125,7 @@ def plan(tier, seed):
     for poll in (False, True):
         ds = directed(poll)
         if tier == "quick":
-            ds = [ds[0], ds[2], ds[6], ds[7]]
+            ds = [ds[0], ds[2], ds[6], ds[7], ds[-1]]
         for k, scn in enumerate(ds):
             for p in range(parts):
                 specs.append({"mode": "enum", "scn": scn, "part": p, "parts": parts, "cap": 700 if tier == "quick" else 6000})
